@@ -4,6 +4,7 @@ package props
 
 import (
 	"fmt"
+	"io"
 	"math"
 	"math/rand/v2"
 
@@ -23,9 +24,9 @@ func init() {
 				Blocks:   16,
 				Procs:    16,
 				Rule: "case = (Left, Right, n). Exhaustive: every pair of line sequences over alphabet 2 x length <= 8, alphabet 3 x length <= 5 and alphabet 4 x length <= 4 (alphabet 2 x length <= 9, alphabet 3 x length <= 6 in thorough), each with every context size n in 0..5 (so n exceeds every gap for short inputs); random repetitive inputs of up to 60 lines with n in 0..8; context sizes 1000, 2^31, 2^40, MaxInt-1 and MaxInt; inputs that are windows of one shared backing array; very large inputs (4100..11700 lines a side, 16400 and 23200 in thorough: length products past 2^24..2^29) whose seam repeats (one of two adjacent identical blocks removed or added), with the middle replaced, with nothing in common at the ends, and with scattered edits; the F4 witnesses as regression cases. " +
-					"At each of the three stages every chunk's edits are interpreted against Left[LStart,LEnd) and Right[RStart,REnd); leading/trailing context <= n; after New and after Unify chunks ascending and disjoint (after Unify also not adjacent) and replacing each left range by the chunk's output yields Right; Edits deep-equals its value after New and is itself a correct script; Left/Right are not modified. " +
+					"In about half of the cases the diff is rendered (Diff.Format with all three formatters) between the stages, before the stage is checked. At each of the three stages every chunk's edits are interpreted against Left[LStart,LEnd) and Right[RStart,REnd); leading/trailing context <= n; after New and after Unify chunks ascending and disjoint (after Unify also not adjacent) and replacing each left range by the chunk's output yields Right; Edits deep-equals its value after New and is itself a correct script; Left/Right are not modified. " +
 					"distinct = enumerated (Left, Right, n) triples, random ones by hash; non-trivial = New produced >= 2 chunks and n >= 1 (context of neighbouring chunks can interact)",
-				Required:     []string{"triples", "multi_chunk_triples", "merged_by_unify", "n_exceeds_gap", "f4_witnesses", "aliased_input_triples", "huge_n_triples", "very_large_input_triples"},
+				Required:     []string{"triples", "multi_chunk_triples", "merged_by_unify", "n_exceeds_gap", "f4_witnesses", "aliased_input_triples", "huge_n_triples", "very_large_input_triples", "formats_between_stages"},
 				Exhaustive:   true,
 				Assumptions:  []string{"chunk interpreter written from the Chunk field documentation (1-based half-open ranges)"},
 				CoverPkgs:    []string{"github.com/creachadair/mds/mdiff"},
@@ -64,6 +65,11 @@ func c13check(c *fw.Ctx, left, right []string, n int) (nchunks int, merged, exce
 	ok, pv, stack := fw.Try(func() {
 		d = mdiff.New(left, right)
 		c.Step()
+		if (len(left)+2*len(right)+n)%3 == 0 {
+			for _, f := range []mdiff.FormatFunc{mdiff.Unified, mdiff.Normal, mdiff.Context} {
+				d.Format(io.Discard, f, nil)
+			}
+		}
 		checkChunks := func(maxCtx int, needDisjoint, needNonAdjacent bool) bool {
 			for i, ch := range d.Chunks {
 				lead, trail, prob := interpretChunk(ch, left, right)
@@ -135,6 +141,15 @@ func c13check(c *fw.Ctx, left, right []string, n int) (nchunks int, merged, exce
 			return
 		}
 		c.Step()
+		if (len(left)+len(right)+n)%2 == 0 {
+			// read-only use between the stages: rendering the diff must not
+			// change what the next stage works on
+			stage = fmt.Sprintf("AddContext(%d) and Format", n)
+			for _, f := range []mdiff.FormatFunc{mdiff.Unified, mdiff.Normal, mdiff.Context} {
+				d.Format(io.Discard, f, nil)
+			}
+			c.Add("formats_between_stages", 1)
+		}
 		if !checkChunks(n, false, false) {
 			return
 		}
